@@ -585,6 +585,77 @@ def judge_punct_para(s: Any, fmt: str, pi: int, res: Dict[str, Any]) -> None:
         res['violations'].append(core.violation(f'paragraph-text-not-exact/{fmt}/p{pi}', f'{fmt}: {doc!r} shown as {shown!r}', case))
 
 
+
+# ---------------------------------------------------------------------------------------------------------------------
+# every field on every kind of owner: the text of a field is shown somewhere on the owner's page (its own documentation, the
+# documentation or type of a member the field documents) or the field is reported - whatever the owner is
+OWNER_SRC = {
+    'function': 'def o(a, *args, k=1, **kw):\n{D}',
+    'method': 'class K:\n    def o(self, a, *args, k=1, **kw):\n{D8}',
+    'property': 'class K:\n    @property\n    def o(self):\n{D8}',
+    'property+setter': 'class K:\n    @property\n    def o(self):\n{D8}\n    @o.setter\n    def o(self, a):\n        pass',
+    'class': 'class o:\n{D}\n    q = 1\n    def __init__(self, a, *args, k=1, **kw): pass',
+    'exception': 'class o(Exception):\n{D}',
+    'module': '{D0}\nq = 1\nv = 2',
+    'attribute': 'class K:\n    o = 1\n{D}',
+    'module-variable': 'o = 1\n{D0}',
+    'instance-variable': 'class K:\n    def __init__(self):\n        self.o = 1\n{D8}',
+}
+OWNER_FIELDS_E = dict(FIELDS_E)
+OWNER_FIELDS_E.update({'ivar': '@ivar q: {w}', 'cvar': '@cvar c: {w}', 'var': '@var v: {w}', 'type-q': '@type q: {w}', 'ivar-new': '@ivar z: {w}', 'return+rtype': '@return: {w}\n@rtype: {w2}',
+                       'param-self': '@param self: {w}', 'type-only-return': '@rtype: {w}'})
+OWNER_FIELDS_NAP = {
+    'google': dict(NAP_FIELDS['google'], **{'ivar': 'Attributes:\n    q: {w}', 'ivar-typed': 'Attributes:\n    q (int): {w}', 'methods': 'Methods:\n    m: {w}', 'example': 'Example:\n    {w}', 'refs': 'References:\n    {w}'}),
+    'numpy': dict(NAP_FIELDS['numpy'], **{'ivar': 'Attributes\n----------\nq\n    {w}', 'ivar-typed': 'Attributes\n----------\nq : int\n    {w}', 'methods': 'Methods\n-------\nm\n    {w}', 'example': 'Examples\n--------\n{w}'}),
+}
+
+
+def judge_owner_field(fmt: str, owner: str, fld: str, with_body: bool, res: Dict[str, Any]) -> None:
+    from pydoctor import epydoc2stan, model
+    from pydoctor.stanutils import flatten_text
+    from pydoctor.templatewriter import pages
+    w = W()
+    body = f'Desc {w()}.\n\n' if with_body else ''
+    tmpl = (OWNER_FIELDS_NAP[fmt] if fmt in NAP_FIELDS else OWNER_FIELDS_E)[fld]
+    text, toks = fmt_field(tmpl, w)
+    if fmt == 'restructuredtext':
+        text = re.sub(r'^@(\w+)( [^:\n]+)?:', lambda m: ':' + m.group(1) + (m.group(2) or '') + ':', text, flags=re.M)
+    doc = body + text
+
+    def lit(ind: int) -> str:
+        pad = ' ' * ind
+        return pad + '"""\n' + ''.join((pad + l if l else '') + '\n' for l in doc.split('\n')) + pad + '"""'
+    src = OWNER_SRC[owner].replace('{D8}', lit(8)).replace('{D0}', lit(0)).replace('{D}', lit(4)) + '\n'
+    case = {'kind': 'owner-field', 'fmt': fmt, 'owner': owner, 'fld': fld, 'body': with_body}
+    res['evals'] += 1
+    res['nontrivial'].add(core.h('owner-field', fmt, owner, fld, with_body))
+    with pd.scratch('c09o') as d:
+        pd.write_tree(d, {'m.py': src})
+        s = pd.build_files(d, ['m.py'], options={'docformat': fmt}, systemcls=pd.RecordingSystem)
+    shown: List[str] = []
+    for o in s.allobjects.values():
+        try:
+            if isinstance(o, (model.Module, model.Class)) and o.docstring is not None:
+                epydoc2stan.extract_fields(o)
+        except Exception:  # noqa
+            pass
+    for o in list(s.allobjects.values()):
+        shown.append(flatten_text(epydoc2stan.format_docstring(o)))
+        if isinstance(o, model.Attribute):
+            t = epydoc2stan.type2stan(o)
+            if t is not None:
+                shown.append(flatten_text(t))
+        if isinstance(o, model.Function):
+            shown.append(flatten_text(pages.format_signature(o)))
+    alltext = ' '.join(shown)
+    msgs = [m for sec, m, th in s.messages if th < 0]
+    res['outcomes'].add((fmt, owner, bool(msgs)))
+    lost = [t for t in toks if t not in alltext]
+    if lost and not msgs:
+        res['violations'].append(core.violation(f'field-text-lost-silently/{owner}/{fld.split("-")[0]}' + ('+body' if with_body and owner.startswith('property') else ''),
+                                                f'{fmt}: field {fld} in the docstring of a {owner}: {lost} shown nowhere and nothing reported\n{src}', case))
+
+
 def jobs(tier: str) -> Iterable[Tuple[str, Any]]:
     N = 2 if tier == 'quick' else 3
     names = list(BLOCKS)
@@ -597,6 +668,9 @@ def jobs(tier: str) -> Iterable[Tuple[str, Any]]:
         yield ('code-lines', ('code', host, 'code' if host in ('rst-code', 'rst-python') else 'doctest'))
     for fmt in EXACT_FIELDS:
         yield ('exact-field-text', ('exact', fmt))
+    for fmt in EXACT_FIELDS:
+        for owner in OWNER_SRC:
+            yield ('fields-x-owners', ('owners', fmt, owner))
     if N >= 3:
         for fmt in ('epytext', 'restructuredtext', 'google', 'numpy'):
             for first in names:
@@ -645,6 +719,11 @@ def run_job(job: Any, tier: str) -> Dict[str, Any]:
         n = 2 if tier == 'quick' else 3
         for c in (code_cases(n) if kind == 'code' else doctest_cases(n, host)):
             judge_code(s, host, c[1:], res)
+    elif job[0] == 'owners':
+        _, fmt, owner = job
+        for fld in (OWNER_FIELDS_NAP[fmt] if fmt in NAP_FIELDS else OWNER_FIELDS_E):
+            for with_body in (True, False):
+                judge_owner_field(fmt, owner, fld, with_body, res)
     elif job[0] == 'exact':
         fmt = job[1]
         s = mk(fmt)
@@ -670,6 +749,8 @@ def replay(case: Dict[str, Any]) -> List[Dict[str, Any]]:
         judge_code(mk(HOST_FMT[case['host']]), case['host'], case['lines'], res)
     elif case['kind'] == 'exact-field':
         judge_exact_field(mk(case['fmt']), case['fmt'], case['fld'], case['desc'], res)
+    elif case['kind'] == 'owner-field':
+        judge_owner_field(case['fmt'], case['owner'], case['fld'], case['body'], res)
     elif case['kind'] == 'punct':
         judge_punct_para(mk(case['fmt']), case['fmt'], case['para'], res)
     else:
